@@ -471,7 +471,15 @@ func (e *expander) expandExpr(expr *Expr) []*Expr {
 		return []*Expr{ret}
 	case List:
 		out := &Expr{Kind: List, Origin: expr.Origin, ListFlags: expr.ListFlags}
+		// The list body numbers its symbols independently of the enclosing rule, and its commands
+		// move into the extracted nonterminal: track the nonterminals created inside separately.
+		outerNts := e.createdNts
+		e.createdNts = make(map[int]int)
 		out.Sub = e.expandExpr(expr.Sub[0])
+		for _, sub := range out.Sub {
+			updateArgRefs(sub, e.createdNts)
+		}
+		e.createdNts = outerNts
 		if len(out.Sub) > 1 {
 			// We support a choice of elements
 			out.Sub = []*Expr{{Kind: Choice, Sub: out.Sub, Origin: expr.Origin}}
